@@ -129,10 +129,12 @@ type Sim struct {
 	now   time.Duration
 	steps int
 
-	tasks   []*Task
-	cur     *Task
-	back    chan struct{}
-	lastRan *Task
+	tasks []*Task
+	cur   *Task
+	back  chan struct{}
+	// pairA, pairB: the two tasks running at once after a rendezvous (nil otherwise)
+	pairA, pairB *Task
+	lastRan      *Task
 
 	locks  map[uintptr]*lockState
 	onces  map[uintptr]*onceState
@@ -506,8 +508,23 @@ func (s *Sim) runTask(t *Task, counted bool) {
 		s.logEvent(t, t.req.site, t.req.kind.String(), info)
 	}
 	t.state = stRunning
-	s.cur = t
 	s.lastRan = t
+	if o := t.pair; o != nil {
+		// a rendezvous on an unbuffered channel: both partners go on together, meet in the real channel operation
+		// and run - the only time two tasks do - until each has reached its next seam
+		t.pair = nil
+		if counted || s.cfg.KeepLog {
+			s.logEvent(o, o.req.site, o.req.kind.String(), "rendezvous with "+t.name)
+		}
+		o.state = stRunning
+		s.pairA, s.pairB = t, o
+		s.resumePair(t, o)
+		s.pairA, s.pairB = nil, nil
+		s.afterRun(t)
+		s.afterRun(o)
+		return
+	}
+	s.cur = t
 	s.resume(t)
 	s.cur = nil
 	s.afterRun(t)
